@@ -607,6 +607,34 @@ class ExprMixin(object):
     # evaluate callee, positional args, keyword args in order
     def after_fn(s, fn):
       kw_names = [k.arg for k in e.keywords]
+      if isinstance(fn, VBuiltin) and fn.name.startswith('logger.') and not fn.name.endswith('getChild'):
+        # logging has no effect on verified state; arguments are still evaluated (they can raise), except that an
+        # argument outside the modelled subset is replaced by an opaque value instead of making the unit undecided
+        vals = []
+        cur = [(s, [])]
+        for a in list(e.args) + [k.value for k in e.keywords]:
+          nxt = []
+          for s1, acc in cur:
+            if isinstance(acc, Raised):
+              nxt.append((s1, acc))
+              continue
+            try:
+              snap = s1.fork()
+              rs = self.eval(s1, a.value if isinstance(a, ast.Starred) else a)
+            except Unsupported:
+              s1.env, s1.pc, s1.heap, s1.pyheap, s1.ax = snap.env, snap.pc, snap.heap, snap.pyheap, snap.ax
+              self.ctx.use_trusted('logging argument not modelled')
+              rs = [(s1, VOpaque(z3.IntVal(0), 'log-arg'))]
+            for s2, v in rs:
+              nxt.append((s2, v if isinstance(v, Raised) else acc + [v]))
+          cur = nxt
+        out = []
+        for s1, acc in cur:
+          if isinstance(acc, Raised):
+            out.append((s1, acc))
+          else:
+            out.extend(fn.impl(self, s1, [fn.bound] + acc[:len(e.args)], {}))
+        return out
       def after_args(s2, vals):
         pos = []
         for v in vals[:len(e.args)]:
